@@ -393,6 +393,52 @@ def assertionLabelFromLink (link : Str) : P (Str × Nat) := do
     let v0 ← idx v2 0
     pure (v0, 0)
 
+/-! ### labels of new claims (`Claim::new`, `Builder::to_claim`) and conflict relabelling -/
+
+/-- `char::is_ascii_graphic` -/
+def asciiGraphic (c : Char) : Bool := 33 ≤ c.toNat && c.toNat ≤ 126
+
+/-- `is_valid_vendor` (labels.rs): the test `Builder::to_claim` applies to the definition's
+vendor before it generates a label -/
+def vendorOk (v : Str) : Bool :=
+  !v.isEmpty && utf8Len v ≤ 32
+    && v.all (fun c => asciiGraphic c && !(c == ':' || c == '/' || c == '='))
+
+/-- `str::to_lowercase` **on an ASCII string** (the Unicode mapping of non-ASCII characters is
+not modelled; the driver is only given ASCII vendors, and `vendorOk` refuses all others). -/
+def lowerAscii (v : Str) : Str := v.map toAsciiLower
+
+/-- The label `Claim::new` computes from the fresh UUID (hyphenated, lower case), the vendor
+and the claim version (`v1` = claim version 1). The vendor is only lower-cased. -/
+def newLabel (uuid : Str) (vendor : Option Str) (v1 : Bool) : Str :=
+  match vendor with
+  | some v =>
+    if v1 then lowerAscii v ++ ':' :: ("urn:uuid".toList ++ ':' :: uuid)
+    else "urn:c2pa".toList ++ ':' :: (uuid ++ ':' :: lowerAscii v)
+  | none =>
+    if v1 then "urn:uuid:".toList ++ uuid
+    else "urn:c2pa".toList ++ ':' :: uuid
+
+/-- The label of the claim `Builder::to_claim` creates when the definition carries no label of
+its own: `none` = `Err(BadParam)` (vendor refused). -/
+def builderLabel (uuid : Str) (vendor : Option Str) (v1 : Bool) : Option Str :=
+  match vendor with
+  | some v => if vendorOk v then some (newLabel uuid vendor v1) else none
+  | none => some (newLabel uuid vendor v1)
+
+/-- `new_mp.version = Some(new_version); new_mp.reason = Some(CONFLICTING_MANIFEST)`
+(store.rs, conflict resolution) -/
+def relabelParts (p : Parts) (newVersion : Nat) : Parts :=
+  { p with version := some newVersion, reason := some 1 }
+
+/-- The relabelling step of the store's ingredient conflict resolution on a label read from
+a file: `manifest_label_to_parts(conflict_label)?`, set version and reason, `to_string()`.
+Inner `none` = `Err("ingredient label malformed")`. -/
+def conflictRelabel (label : Str) (newVersion : Nat) : P (Option Str) := do
+  match ← manifestLabelToParts label with
+  | none => pure none
+  | some p => pure (some (display (relabelParts p newVersion)))
+
 /-! ### line protocol
 
 Strings travel as lower-case hex of their UTF-8 bytes (`-` = empty).
@@ -403,6 +449,10 @@ Strings travel as lower-case hex of their UTF-8 bytes (`-` = empty).
   mlabel s= | alabel s= | box s=                              -> ok none | ok some:<hex> | panic
   lwi l=<hex> n=<dec>                                         -> ok <hex> | panic
   link s=<hex>                                                -> ok <hex> <n> | panic
+  vendorok v=<hex>                                            -> ok <0|1>
+  newlabel g=<hex> v=<none|hex> cv=<1|2>                      -> ok <hex>
+  blabel g=<hex> v=<none|hex> cv=<1|2>                        -> ok <hex> | err
+  relabel s=<hex> n=<dec>                                     -> ok none | ok some:<hex> | panic
 -/
 
 def strOfHex (h : String) : Option Str :=
@@ -504,6 +554,29 @@ def handle (toks : List String) : String :=
     match str "s" with
     | some s => pOut (fun (r : Str × Nat) => hexOfStr r.1 ++ " " ++ toString r.2) (assertionLabelFromLink s)
     | none => "bad-request"
+  | "vendorok" :: _ =>
+    match str "v" with
+    | some v => "ok " ++ (if vendorOk v then "1" else "0")
+    | none => "bad-request"
+  | "newlabel" :: _ =>
+    let vS := field toks "v"
+    let vend : Option (Option Str) := if vS == "none" then some none else (strOfHex vS).map some
+    match str "g", vend with
+    | some g, some vend => "ok " ++ hexOfStr (newLabel g vend (field toks "cv" == "1"))
+    | _, _ => "bad-request"
+  | "blabel" :: _ =>
+    let vS := field toks "v"
+    let vend : Option (Option Str) := if vS == "none" then some none else (strOfHex vS).map some
+    match str "g", vend with
+    | some g, some vend =>
+      match builderLabel g vend (field toks "cv" == "1") with
+      | some l => "ok " ++ hexOfStr l
+      | none => "err"
+    | _, _ => "bad-request"
+  | "relabel" :: _ =>
+    match str "s", (field toks "n").toNat? with
+    | some s, some n => pOut optStrOut (conflictRelabel s n)
+    | _, _ => "bad-request"
   | _ => "bad-op"
 
 end C2pa.C34
